@@ -3,7 +3,7 @@ from hypothesis import strategies as st
 import gen
 
 ID = "C01"
-SCEN_FLAGS = {0: "gp_had_to_wait", 1: "concurrent_synchronize", 2: "nested_section", 4: "reg_during_gp",
+SCEN_FLAGS = {0: "gp_had_to_wait", 1: "concurrent_synchronize", 2: "nested_section", 4: "reg_during_gp", 10: "section_nested_beyond_a_power_of_two_depth",
               48: "futex_sleep", 49: "futex_wake_hit", 50: "delayed_store", 51: "store_forwarded", 52: "membarrier",
               55: "cas_fail", 56: "mutex_block", 57: "stale_read"}
 RULE = ("Hypothesis generates, valid by construction, per-thread reader/updater programs (lock/unlock nesting<=3, "
